@@ -37,6 +37,7 @@ def run(ctx):
     c07.writeall(ctx, lexpr, serde)
     peculiar(ctx, lexpr)
     num_text(ctx, lexpr)
+    octet_range(ctx, lexpr)
     # the whole u64 and i64 range round-trips: the integer boundary magnitudes keep their representation (shared with C05)
     from . import c05
     c05.int_boundary(ctx.rule("R-INT-BOUNDARY", "parse_num_tail stores boundary magnitudes as the exact integer: "
@@ -142,3 +143,70 @@ def num_text(ctx, lexpr):
             r.violation(f.path, "num-text", "%s can write %s to the sink: the printed number is no longer the shortest text "
                                             "itoa / ryu produced and may not read back as the same number (e.g. `1e21.0`)"
                         % (f.path, bad), f.loc())
+
+
+def octet_range(ctx, lexpr):
+    """A byte vector `#u8(n ...)` holds every octet 0..=255: the element reader accepts a number n exactly when
+    n <= 255 and stores n itself.  parse_byte_list is evaluated with the number just read ranging over all of u64;
+    the range test splits the paths."""
+    from .. import facts as F, lex, sim
+    from ..sim import Adt, Rng, Ref, Tup
+    r = ctx.rule("R-OCTET-RANGE", "the byte-vector reader accepts an element n exactly for 0 <= n <= 255 and stores n")
+    P = "parse::Parser::<R>::"
+    f = lexpr.fn(P + "parse_byte_list")
+    if f is None:
+        r.anchor_missing(P + "parse_byte_list")
+        return
+    nv = {x["name"]: x["idx"] for x in lexpr.adts["number::N"]["variants"]}
+    OPT, RES = "std::option::Option", "std::result::Result"
+    n = Rng(0, (1 << 64) - 1)
+
+    def hook(S, fn, bb, t, args, path):
+        nm = F.callee_names(t)
+        if P + "parse_whitespace" in nm:
+            k = sum(1 for e in path.events if e[0] == "call" and P + "parse_whitespace" in e[1])
+            seq = [0x28, 0x31, 0x29]
+            if k >= len(seq):
+                return ("stop", "past-close")
+            return ("value", Adt(RES, 0, [Adt(OPT, 1, [seq[k]])]))
+        if P + "parse_number" in nm:
+            return ("value", Adt(RES, 0, [Adt("number::Number", 0, [Adt("number::N", nv["PosInt"], [n], "PosInt")])]))
+        return None
+
+    S = sim.Sim([lexpr], hooks={"call": hook}, inline=lambda a, b: lex.helper_inline(lexpr)(a, b) or
+                (b.crate == lexpr.name and b.file.endswith("number.rs")), max_paths=2000, max_depth=6, max_visits=3)
+    S.structural_vec = True
+    try:
+        paths = S.run(f, args={2: 0x29})
+    except sim.Limit:
+        r.violation(f.path, "inexact", "path limit in parse_byte_list", f.loc())
+        return
+    accepted, rejected, unknown = [], [], 0
+    for p in paths:
+        x = n
+        for memo in p.memos:
+            x = memo.get(id(x), x)
+        pushed = [e[6][1] for e in p.events if e[0] == "call" and any(m.endswith("::push") for m in e[1]) and len(e[6]) > 1]
+        if p.end == "return" and isinstance(p.ret, Adt) and p.ret.variant == 0 and p.ret.fields:
+            rv = S._deref(p.ret.fields[0], p)
+            if isinstance(rv, Adt) and rv.adt == "sim::Vec":
+                pushed = list(rv.fields[0].fields)
+        rng = (x.lo, x.hi) if isinstance(x, Rng) else None
+        if p.end == "return" and isinstance(p.ret, Adt) and p.ret.adt.endswith("Result") and p.ret.variant == 1:
+            rejected.append(rng)
+        elif p.end in ("return", "stop:past-close") and pushed:
+            v = pushed[0]
+            same = isinstance(v, Rng) and rng is not None and (v.lo, v.hi) == rng or isinstance(v, int) and rng == (v, v)
+            accepted.append((rng, same))
+        elif p.end == "panic":
+            unknown += 1
+        else:
+            unknown += 1
+    acc = sorted({a for a, _ in accepted if a})
+    if acc == [(0, 255)] and all(s for _, s in accepted) and rejected and all(x is not None and x[0] >= 256 for x in rejected) and not unknown:
+        r.ok("elements 0..=255 are stored as they are, 256.. are rejected", f)
+    else:
+        r.violation(f.path, "octet-range",
+                    "the byte-vector reader accepts elements in %s (stored unchanged: %s) and rejects %s; every octet 0..=255 "
+                    "must be accepted and nothing else" % (acc, all(s for _, s in accepted), sorted(set(x for x in rejected if x))),
+                    f.loc())
